@@ -300,6 +300,29 @@ def zero_history(rng, contents, tab):
     return h
 
 
+def touch_history(rng, contents, tab, groups):
+    """A file with a stored entry is rewritten with the SAME bytes (touch, branch switch, formatter) in second T, a
+    cached run follows in T (metadata miss on identical content: the racy-clean rule forbids storing mtime T), then a
+    same-size edit still in T, then later runs. Variants: the run one second after the touch (the refreshed entry is
+    safe), a touch that goes through another content first."""
+    t = T0 + rng.randrange(0, 1000)
+    a, b = rng.sample(rng.choice(groups), 2) if groups else rng.sample(range(5, len(contents) + 1), 2)
+    p = (rng.choice(FILE_STEMS), rng.choice([1, 2, 3]))
+    xc = lambda: rng.choice(CMDS)
+    T = t + rng.choice([3, 5, 100])
+    h = [("W", p, a, t)]
+    if rng.random() < 0.4:
+        h.append(("W", (rng.choice(FILE_STEMS), rng.choice([1, 2])), rng.randint(1, len(contents)), t))
+    h.append(("X", xc(), [], t + 2))
+    kind = rng.choice(["same-second", "same-second", "same-second", "later", "via-other"])
+    if kind == "via-other":
+        h += [("W", p, b, T - 1), ("X", xc(), [], T - 1)]
+    run_t = T + 1 if kind == "later" else T
+    h += [("W", p, a, T), ("X", xc(), [], run_t), ("W", p, b, run_t), ("X", rng.choice(["check", "files", "summary"]), [], run_t),
+          ("X", rng.choice(["check", "files", "summary"]), [], run_t + 4)]
+    return h
+
+
 def same_size_pairs(contents):
     by = {}
     for cid, t in enumerate(contents, 1):
@@ -776,7 +799,11 @@ U_TEXTS = ["fn main() {\n    run();\n}\n", "x = 1\n", "// c\nx=1;\n", "a\nb\nc\n
 
 def universe_case(rng, kind=None):
     """-> {"tag", "git", "files": [[rel, text, mtime]], "steps": [["run", cwd, cmd, t] | ["write", rel, text, t] | ["rm", rel]]}"""
-    kind = kind or rng.choice(["nested", "nested", "nested", "nested2", "git", "git"])
+    kind = kind or rng.choice(["nested", "nested", "nested", "nested2", "git", "git", "statelang", "statelang", "unwritable", "unwritable"])
+    if kind == "statelang":
+        return statelang_case(rng)
+    if kind == "unwritable":
+        return unwritable_case(rng)
     t = T0 + rng.randrange(0, 1000)
     files, steps = [], []
     xc = lambda: rng.choice(["check", "check", "summary", "files", "snapshot"])
@@ -828,6 +855,57 @@ def universe_case(rng, kind=None):
     return {"tag": "git-state-dir", "kind": kind, "git": True, "files": files, "steps": steps, "limits": limits, "exclude": excl}
 
 
+def statelang_case(rng, fixed=False):
+    """A custom language claims the extension of the tool's own state files (cache.json, history.json, the baseline
+    file are .json): they are no source files of the project, in a plain project (.sloc-guard/) and in a git project
+    whose scanner.exclude does not list .git/** (.git/sloc-guard/)."""
+    t = T0 if fixed else T0 + rng.randrange(0, 1000)
+    git = (not fixed) and rng.random() < 0.4
+    name = "JSON" if fixed else rng.choice(["JSON", "Data", "aaa"])
+    cfg = 'version = "2"\n\n'
+    if git:
+        cfg += '[scanner]\nexclude = %s\n\n' % json.dumps(rng.choice([[], ["target/**"]]))
+    cfg += '[content]\nextensions = ["rs", "json"]\nmax_lines = %d\n\n[languages.%s]\nextensions = ["json"]\nsingle_line_comments = ["//"]\n' % (
+        3 if fixed else rng.choice([3, 5, 1000]), name)
+    files = [[".sloc-guard.toml", cfg, t], ["a.rs", U_TEXTS[0], t]]
+    if not fixed and rng.random() < 0.5:
+        files.append(["data/x.json", '{\n  "k": 1\n}\n', t])
+    if fixed:
+        steps = [["run", "", "summary", t + 2], ["run", "", "summary", t + 3]]
+    else:
+        cmds = [rng.choice(["summary", "files", "snapshot", "check"]) for _ in range(rng.randint(2, 4))]
+        steps = [["run", "", c, t + 2 + i] for i, c in enumerate(cmds)] + [["run", "", rng.choice(["summary", "files"]), t + 8]]
+    return {"tag": "state-file-language", "kind": "fixed" if fixed else "statelang", "git": git, "files": files, "steps": steps, "limits": {}}
+
+
+def unwritable_case(rng, fixed=None):
+    """The cache cannot be written back: cache.json is replaced by a directory between runs, or a regular file occupies
+    the name of the state directory. An unusable cache is ignored, never fatal and never a reason for another exit
+    code, also when warnings count as errors (--strict, --warnings-as-errors, [check] warnings_as_errors)."""
+    t = T0 if fixed else T0 + rng.randrange(0, 1000)
+    blocker = fixed or rng.choice(["cachedir", "statefile", "cachedir-late"])
+    strict = ["--strict"] if fixed else rng.choice([["--strict"], ["--strict"], ["--warnings-as-errors"], [], "config"])
+    cfg = 'version = "2"\n\n[content]\nmax_lines = %d\n' % (100 if fixed else rng.choice([100, 100, 3, 2]))
+    if strict == "config":
+        cfg += '\n[check]\nwarnings_as_errors = true\n'
+        strict = []
+    files = [[".sloc-guard.toml", cfg, t], ["main.rs", U_TEXTS[0], t]]
+    if not fixed and rng.random() < 0.5:
+        files.append(["src/b.rs", rng.choice(U_TEXTS), t])
+    steps = []
+    if blocker == "statefile":
+        steps.append(["block", "statefile"])
+    else:
+        steps.append(["run", "", "check", t + 2, strict])
+        if blocker == "cachedir-late":
+            steps.append(["run", "", rng.choice(["check", "summary", "files"]), t + 3, []])
+        steps.append(["block", "cachedir"])
+    steps.append(["run", "", "check", t + 4, strict])
+    if not fixed:
+        steps += [["write", "main.rs", rng.choice(U_TEXTS), t + 5], ["run", "", rng.choice(["check", "summary", "files"]), t + 6, []], ["run", "", "check", t + 7, strict]]
+    return {"tag": "unwritable-cache", "kind": "fixed" if fixed else "unwritable", "git": False, "files": files, "steps": steps, "limits": {}, "blocker": blocker}
+
+
 def universe_fixed():
     """Always run first: the two minimal witnesses (seeded C12-m7 layout; D91)."""
     t = T0
@@ -840,7 +918,7 @@ def universe_fixed():
            "files": [[".sloc-guard.toml", 'version = "2"\n\n[scanner]\nexclude = ["target/**"]\n\n[structure]\nmax_dirs = 5\n', t],
                      ["src/a/m.rs", U_TEXTS[0], t]],
            "steps": [["run", "", "check", t + 2], ["run", "", "check", t + 3]]}
-    return [nested, git]
+    return [nested, git, statelang_case(None, fixed=True), unwritable_case(None, fixed="cachedir"), unwritable_case(None, fixed="statefile")]
 
 
 def replay_universes(exe, case, threads="2"):
@@ -861,9 +939,20 @@ def replay_universes(exe, case, threads="2"):
                     fp = os.path.join(sb.proj, st[1])
                     if os.path.lexists(fp):
                         os.remove(fp)
+                elif st[0] == "block":
+                    sd = os.path.join(sb.proj, ".sloc-guard")
+                    if st[1] == "statefile":                     # a regular file where the state directory would go
+                        if not os.path.lexists(sd):
+                            open(sd, "w").close()
+                    else:                                        # cache.json replaced by a directory
+                        cj = os.path.join(sd, "cache.json")
+                        if os.path.isfile(cj):
+                            os.remove(cj)
+                        os.makedirs(cj, exist_ok=True)
                 else:
-                    _, cwd, cmd, t = st
-                    rc, out, err = sb.run(exe, cmd_args(cmd, []) + flag, cwd=os.path.join(sb.proj, cwd) if cwd else sb.proj,
+                    cwd, cmd, t = st[1:4]
+                    extra = list(st[4]) if len(st) > 4 else []
+                    rc, out, err = sb.run(exe, cmd_args(cmd, []) + extra + flag, cwd=os.path.join(sb.proj, cwd) if cwd else sb.proj,
                                           env={"SGV_NOW": str(t), "RAYON_NUM_THREADS": threads})
                     for root in (os.path.realpath(sb.proj), sb.proj):
                         out, err = out.replace(root, "<P>"), err.replace(root, "<P>")
